@@ -50,7 +50,7 @@ TABLE = {
             "stored run fields follow has_run(); tag data is recorded under run_data.run_id. Necessary structure for "
             "continuing a run across reconnects, for all paths rather than the one scenario the suite plays.",
             "Decides structure only: crash points without shutdown, database contents and message arrival order after the "
-            "reconnect are outside static reach. (R28f) the recent-engine row is written whenever the active run changes; (R28g) every tag-update message carries the runner's run id. (R28h) pending tag values are flushed before the engine data is dropped (disconnect, shutdown)."),
+            "reconnect are outside static reach. (R28f) the recent-engine row is written whenever the active run changes; (R28g) every tag-update message carries the runner's run id. (R28h) pending tag values are flushed before the engine data is dropped (disconnect, shutdown); (R28i) a crash between the two commits of run_stopped stores the run twice - open known finding."),
     "C16": ("interprocedural kind (dimension/clock) analysis of every time argument that reaches a tag writer",
             "A kind lattice {TICK_TIME, COUNTER, WALL, MONO, DURATION, CONST, UNKNOWN} is propagated from Engine.tick's "
             "tick_time parameter through parameters, attributes and returns (global fix-point over resolved call sites); "
